@@ -57,7 +57,10 @@ def key_defects(node, d, path="d"):
 
 def run(ctx):
     import nir
+    from core import run_graph_ops
     rng = ctx.rng
+    cases, obs, reqs = [], [], []
+    cases2, obs2, reqs2 = [], [], []
     for i in range(ctx.n(250)):
         if i % 3 == 0:
             g, _, _ = gen.consistent_graph(rng, max_nodes=6)    # carries None annotations
@@ -73,6 +76,11 @@ def run(ctx):
         before = compare.snapshot(graph)
         try:
             d = graph.to_dict()
+            c1 = {"op": "to_dict", "graph": g}
+            cases.append(c1); obs.append({"d": canon(d)}); reqs.append(c1)
+            c2 = {"op": "graph", "graph": g, "ops": ["dict_rt"]}
+            steps, _ = run_graph_ops(g, ["dict_rt"])
+            cases2.append(c2); obs2.append({"steps": steps}); reqs2.append(c2)
         except Exception as e:  # noqa
             ctx.violate(case, "to_dict raised", {"site": "to_dict", "what": "raised"}, observed=err_name(e))
             continue
@@ -108,6 +116,8 @@ def run(ctx):
         if compare.snapshot(graph) != before:
             ctx.violate(case, "mutating the dictionary changed the graph",
                         {"site": "to_dict", "what": "alias", "where": "mutation"})
+    ctx.compare("dicts", cases, obs, reqs)
+    ctx.compare("dicts", cases2, obs2, reqs2)
 
 
 def _where_shared(graph, d, path=""):
